@@ -20,7 +20,7 @@ def scratch_repo(patch=None):
 
 def run_check(prop, seed, repo=None, tier="quick", runs=0, out=None):
     env = dict(os.environ)
-    if repo: env["CELLO_REPO"] = repo
+    if repo: env["CELLO_REPO"] = repo; env["VERIF_NO_MINIMISE"] = "1"
     if out: env["VERIF_OUT"] = out
     cmd = [os.path.join(VERIF, "check"), prop, "--tier", tier, "--seed", str(seed)]
     if runs: cmd += ["--runs", str(runs)]
